@@ -179,7 +179,37 @@ Record good_writer {W} (wr : writer W) (good : W -> Prop) : Prop := {
 Definition benign (r : resp) : Prop :=
   match r with Accept n => 1 <= n | Interrupted => True | Zero | Fail _ => False end.
 
+(* at least one flush succeeded *)
 Definition sink_flushed (s : sink) : Prop := 0 < s_flushes s.
+(* ... and nothing was accepted after the last successful flush: every byte the sink holds was
+   committed by a flush that came AFTER it (the prefill was there before the session) *)
+Definition sink_committed (s : sink) : Prop := sink_flushed s /\ s_unflushed s = 0.
+(* behind a BufWriter: the same for the sink, and nothing is left in the BufWriter's own buffer *)
+Definition buf_committed (b : bufw sink) : Prop := sink_committed (b_inner b) /\ b_buf b = [].
+
+Lemma sink_committed_flushed s : sink_committed s -> sink_flushed s.
+Proof. intros [H _]. exact H. Qed.
+
+(* the counter means what it says: one write call adds exactly the bytes it made the sink accept,
+   a successful flush resets it, a failing flush and a refused write leave it *)
+Lemma sink_write_unflushed s buf r s' : sink_write s buf = (r, s') ->
+  s_unflushed s' + length (s_data s) = s_unflushed s + length (s_data s') /\
+  s_flushes s' = s_flushes s.
+Proof.
+  unfold sink_write. intros H.
+  destruct (s_oracle s) as [|[n| | |k] o]; inversion H; subst; clear H; cbn;
+    rewrite ?app_length, ?firstn_length; split; auto; lia.
+Qed.
+
+Lemma sink_flush_unflushed s r s' : sink_flush s = (r, s') ->
+  s_data s' = s_data s /\
+  match r with
+  | IoOk _ => s_unflushed s' = 0 /\ s_flushes s' = S (s_flushes s)
+  | _ => s' = s
+  end.
+Proof.
+  unfold sink_flush. intros H. destruct (s_fresp s); inversion H; subst; cbn; auto.
+Qed.
 
 Lemma sink_write_sane : sane_write sink_write sink_budget s_data.
 Proof.
@@ -192,7 +222,7 @@ Proof.
   - repeat split; auto.
 Qed.
 
-Lemma sink_sane : sane_writer sink_writer s_data s_data sink_flushed.
+Lemma sink_sane : sane_writer sink_writer s_data s_data sink_committed.
 Proof.
   split.
   - exact sink_write_sane.
@@ -811,7 +841,7 @@ Section SinkFault.
   Proof.
     intros Ha. unfold cw_write_all, default_write_all.
     destruct (write_loop_fault cww (cw_budget sink_writer) (fun c => s_data (c_inner c))
-                (cw_write_sane crc_update sink_writer s_data s_data sink_flushed sink_sane)
+                (cw_write_sane crc_update sink_writer s_data s_data sink_committed sink_sane)
                 armed_c fired_c kf cw_fault_write
                 (loop_fuel (cw_budget sink_writer) c buf) c buf Ha)
       as (c' & rest & [[H1 H2]|[H1 H2]]); [unfold loop_fuel; lia| |]; rewrite H1; eauto.
@@ -943,11 +973,11 @@ Section Stacks.
     let o := sink_sess oracle FlushOk prefill calls fin in
     Forall (fun r => st_of r = IoOk tt) (o_calls o) /\ length (o_calls o) = length calls /\
     (exists rf, o_fin o = Some rf /\ st_of rf = IoOk tt /\ bw_of rf = len (sess_bytes calls fin)) /\
-    s_data (o_final o) = prefill ++ file_bytes calls fin /\ sink_flushed (o_final o) /\
+    s_data (o_final o) = prefill ++ file_bytes calls fin /\ sink_committed (o_final o) /\
     map bw_of (o_calls o) = cum_lens 0%N calls.
   Proof.
     intros Hokc Hokf Hb.
-    exact (session_good crc_update masked okS okB Hlaw sink_writer s_data s_data sink_flushed
+    exact (session_good crc_update masked okS okB Hlaw sink_writer s_data s_data sink_committed
              sink_sane s_calls (fun s => length (s_data s)) (fun _ => eq_refl)
              (sink_good FlushOk) (sink_write_good FlushOk) sink_good_writer
              (new_sink oracle FlushOk prefill) calls fin Hokc Hokf (new_sink_good _ _ _ Hb)).
@@ -965,11 +995,11 @@ Section Stacks.
       ok_or_err (st_of rf) /\
       (st_of rf = IoOk tt ->
          s_data (o_final o) = prefill ++ file_bytes calls fin /\
-         bw_of rf = len (sess_bytes calls fin) /\ sink_flushed (o_final o) /\
+         bw_of rf = len (sess_bytes calls fin) /\ sink_committed (o_final o) /\
          map bw_of (o_calls o) = cum_lens 0%N calls)
     end.
   Proof.
-    exact (session_sane crc_update masked okS okB Hlaw sink_writer s_data s_data sink_flushed
+    exact (session_sane crc_update masked okS okB Hlaw sink_writer s_data s_data sink_committed
              sink_sane s_calls (fun s => length (s_data s)) (fun _ => eq_refl)
              (new_sink oracle fl prefill) calls fin).
   Qed.
@@ -981,7 +1011,7 @@ Section Stacks.
                    c_sum c = crc_update 0%N bytes) /\
     Forall (fun r => ok_or_err (st_of r) /\ N.of_nat (wa_of r) = (len prefill + bw_of r)%N) rs.
   Proof.
-    exact (calls_count crc_update okS okB Hlaw sink_writer s_data s_data sink_flushed
+    exact (calls_count crc_update okS okB Hlaw sink_writer s_data s_data sink_committed
              sink_sane s_calls (fun s => length (s_data s)) (fun _ => eq_refl)
              (new_sink oracle fl prefill) calls).
   Qed.
@@ -998,22 +1028,22 @@ Section Stacks.
     pose proof (sink_session_sane oracle fl prefill calls fin Hokc Hokf) as Hs. cbv zeta in Hs.
     unfold run_sink_session, run_session in *.
     pose proof (new_sink_good oracle fl prefill Hb) as Hg.
-    destruct (run_calls_good crc_update sink_writer s_data s_data sink_flushed sink_sane s_calls
+    destruct (run_calls_good crc_update sink_writer s_data s_data sink_committed sink_sane s_calls
                 (fun s => length (s_data s)) (sink_good fl) (sink_write_good fl) calls
                 (mkCw (new_sink oracle fl prefill) 0%N 0%N) Hg) as (rs & c & E & Hg').
     rewrite E in *.
-    pose proof (calls_count crc_update okS okB Hlaw sink_writer s_data s_data sink_flushed
+    pose proof (calls_count crc_update okS okB Hlaw sink_writer s_data s_data sink_committed
              sink_sane s_calls (fun s => length (s_data s)) (fun _ => eq_refl)
              (new_sink oracle fl prefill) calls Hokc) as Hcnt. rewrite E in Hcnt.
-    pose proof (run_calls_sane crc_update okS okB Hlaw sink_writer s_data s_data sink_flushed sink_sane
+    pose proof (run_calls_sane crc_update okS okB Hlaw sink_writer s_data s_data sink_committed sink_sane
                   s_calls (fun s => length (s_data s)) (fun _ => eq_refl) prefill calls _ _ _ _ Hokc
                   (cw_inv_init crc_update okS okB Hlaw s_data (new_sink oracle fl prefill)) E)
       as (Hi & _ & _ & Ht & _).
     destruct (Ht eq_refl) as (_ & _ & Hacc & _). unfold cacc in Hacc; cbn in Hacc.
     unfold run_finish in *.
-    destruct (cw_chunks_good crc_update sink_writer s_data s_data sink_flushed sink_sane
+    destruct (cw_chunks_good crc_update sink_writer s_data s_data sink_committed sink_sane
                 (sink_good fl) (sink_write_good fl) fin c Hg') as (c0 & E0 & Hg0).
-    pose proof (cw_chunks_sane crc_update okS okB Hlaw sink_writer s_data s_data sink_flushed sink_sane
+    pose proof (cw_chunks_sane crc_update okS okB Hlaw sink_writer s_data s_data sink_committed sink_sane
                   prefill fin c _ _ Hokf Hi E0) as ((bytes & Hb1 & Hb2 & Hb3 & _) & _ & Hacc0).
     unfold cacc in Hacc0.
     rewrite E0 in *. cbn [w_write_all sink_writer w_flush] in *.
@@ -1039,20 +1069,22 @@ Section Stacks.
     Forall (fun r => st_of r = IoOk tt) (o_calls o) /\ length (o_calls o) = length calls /\
     (exists rf, o_fin o = Some rf /\ st_of rf = IoOk tt /\ bw_of rf = len (sess_bytes calls fin)) /\
     s_data (b_inner (o_final o)) = prefill ++ file_bytes calls fin /\
-    b_buf (o_final o) = [] /\ sink_flushed (b_inner (o_final o)) /\
+    b_buf (o_final o) = [] /\ sink_committed (b_inner (o_final o)) /\
     map bw_of (o_calls o) = cum_lens 0%N calls.
   Proof.
     intros Hokc Hokf Hb.
     pose proof (session_good crc_update masked okS okB Hlaw (bufw_writer sink_writer)
-             (bacc s_data) (bphys s_data) (bflushed sink_flushed)
-             (bufw_sane sink_writer s_data s_data sink_flushed sink_sane)
+             (bacc s_data) (bphys s_data) (bflushed sink_committed)
+             (bufw_sane sink_writer s_data s_data sink_committed sink_sane)
              (fun b => s_calls (b_inner b)) bw_wa bw_wa_ok
              (bgood (sink_good FlushOk))
-             (gw_write _ _ (bufw_good sink_writer s_data s_data sink_flushed sink_sane _ sink_good_writer))
-             (bufw_good sink_writer s_data s_data sink_flushed sink_sane _ sink_good_writer)
+             (gw_write _ _ (bufw_good sink_writer s_data s_data sink_committed sink_sane _ sink_good_writer))
+             (bufw_good sink_writer s_data s_data sink_committed sink_sane _ sink_good_writer)
              (mkBuf (new_sink oracle FlushOk prefill) [] cap) calls fin Hokc Hokf (new_sink_good _ _ _ Hb)) as H.
     cbv zeta in *. unfold bacc, bphys, bflushed in H. cbn [b_inner b_buf new_sink s_data] in H.
-    rewrite app_nil_r in H. destruct H as (A & B & C & D & (E & F) & G). repeat split; auto.
+    rewrite app_nil_r in H. destruct H as (A & B & C & D & (E & F) & G).
+    split; [exact A|]. split; [exact B|]. split; [exact C|]. split; [exact D|].
+    split; [exact F|]. split; [exact E|exact G].
   Qed.
 
   Theorem buf_session_sane cap oracle fl prefill calls fin :
@@ -1068,14 +1100,14 @@ Section Stacks.
       (st_of rf = IoOk tt ->
          s_data (b_inner (o_final o)) = prefill ++ file_bytes calls fin /\
          bw_of rf = len (sess_bytes calls fin) /\
-         (sink_flushed (b_inner (o_final o)) /\ b_buf (o_final o) = []) /\
+         (sink_committed (b_inner (o_final o)) /\ b_buf (o_final o) = []) /\
          map bw_of (o_calls o) = cum_lens 0%N calls)
     end.
   Proof.
     intros Hokc Hokf.
     pose proof (session_sane crc_update masked okS okB Hlaw (bufw_writer sink_writer)
-             (bacc s_data) (bphys s_data) (bflushed sink_flushed)
-             (bufw_sane sink_writer s_data s_data sink_flushed sink_sane)
+             (bacc s_data) (bphys s_data) (bflushed sink_committed)
+             (bufw_sane sink_writer s_data s_data sink_committed sink_sane)
              (fun b => s_calls (b_inner b)) bw_wa bw_wa_ok
              (mkBuf (new_sink oracle fl prefill) [] cap) calls fin Hokc Hokf) as H.
     cbv zeta in *. unfold bacc, bphys, bflushed in H. cbn [b_inner b_buf new_sink s_data] in H.
@@ -1092,13 +1124,87 @@ Section Stacks.
   Proof.
     intros Hokc.
     pose proof (calls_count crc_update okS okB Hlaw (bufw_writer sink_writer)
-             (bacc s_data) (bphys s_data) (bflushed sink_flushed)
-             (bufw_sane sink_writer s_data s_data sink_flushed sink_sane)
+             (bacc s_data) (bphys s_data) (bflushed sink_committed)
+             (bufw_sane sink_writer s_data s_data sink_committed sink_sane)
              (fun b => s_calls (b_inner b)) bw_wa bw_wa_ok
              (mkBuf (new_sink oracle fl prefill) [] cap) calls Hokc) as H.
     unfold bacc in H. cbn [b_inner b_buf new_sink s_data] in H. rewrite app_nil_r in H. exact H.
   Qed.
 End Stacks.
+
+(* ================= converse guard: a write after the last flush is seen ================= *)
+(* bytes the sink holds = bytes committed by the last successful flush (d) + pending ones *)
+Definition pending_inv (d f : nat) (s : sink) : Prop :=
+  length (s_data s) = d + s_unflushed s /\ s_flushes s = f.
+
+Lemma sink_write_pending d f s buf r s' :
+  pending_inv d f s -> sink_write s buf = (r, s') -> pending_inv d f s'.
+Proof.
+  intros [H1 H2] H. apply sink_write_unflushed in H. destruct H as [H3 H4].
+  unfold pending_inv. split; lia.
+Qed.
+
+Lemma write_all_pending d f s buf r s' :
+  pending_inv d f s -> w_write_all sink_writer s buf = (r, s') -> pending_inv d f s'.
+Proof.
+  intros Hi H. cbn in H. unfold default_write_all in H.
+  destruct (write_loop _ _ _ _) as [[r0 s0] rest] eqn:E. inversion H; subst; clear H.
+  eapply (write_loop_inv sink_write (pending_inv d f) (fun _ => True)); [| |exact I|exact Hi|exact E]; auto.
+  intros st b r1 st' _ _ Hs Hw. eapply sink_write_pending; eauto.
+Qed.
+
+(* any sink that accepts writes benignly and flushes successfully: `flush; write_all buf` leaves
+   the bytes in the sink, the sink has been flushed - and the predicate does NOT hold *)
+Theorem write_after_flush_not_committed (s : sink) (buf : list N) :
+  Forall benign (s_oracle s) -> s_fresp s = FlushOk -> buf <> [] ->
+  let s1 := snd (sink_flush s) in
+  let s2 := snd (w_write_all sink_writer s1 buf) in
+  fst (sink_flush s) = IoOk tt /\ fst (w_write_all sink_writer s1 buf) = IoOk tt /\
+  s_data s2 = s_data s ++ buf /\ sink_flushed s2 /\ s_unflushed s2 = length buf /\
+  ~ sink_committed s2.
+Proof.
+  intros Hb Hfl Hne. cbv zeta.
+  set (s1 := mkSink (s_data s) (s_oracle s) (s_calls s) (s_fresp s) (S (s_flushes s)) 0).
+  assert (Hf : sink_flush s = (IoOk tt, s1)) by (unfold sink_flush, s1; destruct (s_fresp s); [reflexivity|discriminate]).
+  rewrite Hf. cbn [fst snd].
+  destruct (write_all_delivers_sink s1 buf Hb) as (s2 & E & Hd & _).
+  assert (Hp : pending_inv (length (s_data s)) (S (s_flushes s)) s1) by (split; cbn; lia).
+  pose proof (write_all_pending _ _ _ _ _ _ Hp E) as [Hp1 Hp2].
+  rewrite E. cbn [fst snd]. rewrite Hd, app_length in Hp1. cbn [s_data s1] in *.
+  assert (Hu : s_unflushed s2 = length buf) by lia.
+  split; [reflexivity|]. split; [reflexivity|]. split; [exact Hd|]. split; [unfold sink_flushed; lia|].
+  split; [exact Hu|]. intros [_ H0]. destruct buf; [congruence|]. cbn [length] in Hu. lia.
+Qed.
+
+(* the seeded change C07-4 (Writer.run_finish_flush_first: `flush` before the checksum write) on a
+   concrete session: same bytes as the real order, flushed once, into_inner returns Ok - but the 4
+   checksum bytes are pending in a direct sink, resp. still in the buffer of a BufWriter (and
+   pending in the sink after the BufWriter is dropped) *)
+Definition flush_first_sink_session (oracle : list resp) (calls : list (list (list N))) fin :=
+  let '(_, c, _) := run_calls standin_update sink_writer false s_calls (fun s => length (s_data s))
+                              (mkCw (new_sink oracle FlushOk []) 0%N 0%N) calls in
+  run_finish_flush_first standin_update standin_masked sink_writer false c fin.
+Definition flush_first_buf_session (cap : nat) (oracle : list resp) (calls : list (list (list N))) fin :=
+  let '(_, c, _) := run_calls standin_update (bufw_writer sink_writer) false (fun b => s_calls (b_inner b))
+                              (fun b => length (s_data (b_inner b)) + length (b_buf b))
+                              (mkCw (mkBuf (new_sink oracle FlushOk []) [] cap) 0%N 0%N) calls in
+  run_finish_flush_first standin_update standin_masked (bufw_writer sink_writer) false c fin.
+
+Lemma flush_first_is_seen :
+  let good := run_sink_session standin_update standin_masked false [Accept 2; Interrupted] FlushOk []
+                               [[[1; 2; 3]]; [[4]; [5; 6]]]%N [[7]]%N in
+  let '(r, c) := flush_first_sink_session [Accept 2; Interrupted] [[[1; 2; 3]]; [[4]; [5; 6]]]%N [[7]]%N in
+  let '(rb, cb) := flush_first_buf_session 8 [Accept 2; Interrupted] [[[1; 2; 3]]; [[4]; [5; 6]]]%N [[7]]%N in
+  let dropped := bw_drop sink_writer (c_inner cb) in
+  (sink_committed (o_final good) /\ length (s_data (o_final good)) = 11) /\
+  (r = IoOk tt /\ s_data (c_inner c) = s_data (o_final good) /\ sink_flushed (c_inner c) /\
+   s_unflushed (c_inner c) = 4 /\ ~ sink_committed (c_inner c)) /\
+  (rb = IoOk tt /\ length (b_buf (c_inner cb)) = 4 /\ ~ buf_committed (c_inner cb) /\
+   s_data (b_inner dropped) = s_data (o_final good) /\ sink_flushed (b_inner dropped) /\
+   s_unflushed (b_inner dropped) = 4 /\ ~ sink_committed (b_inner dropped)).
+Proof.
+  vm_compute. repeat split; auto; try lia; try discriminate; intros [[_ H] ?] || intros [_ H]; discriminate.
+Qed.
 
 (* ================= the stand-in checksum satisfies the chunking law ================= *)
 Lemma standin_app s a b : standin_update (standin_update s a) b = standin_update s (a ++ b).
